@@ -31,9 +31,9 @@ def gen(seed, tier):
         if via.startswith("service"):
             spec["drop_immediately"] = rng.random() < 0.2
             if rng.random() < 0.3:
-                # declared in a less usual way: plain subclass of a service class, or a subclass
+                # declared in a less usual way: plain subclass of a service class (with or without chaining up in __init__), or a subclass
                 # decorated again - with the same or another flavour (the last decoration counts)
-                spec["svc_class"] = rng.choice(["subclass", "redecorated-same", "redecorated-other", "falsy", "empty"])
+                spec["svc_class"] = rng.choice(["subclass", "nochain", "redecorated-same", "redecorated-other", "falsy", "empty"])
         else:
             spec["args"] = rng.choice(ARGS)
             spec["kwargs"] = rng.choice(KWARGS)
